@@ -65,7 +65,7 @@ PROBES = ["variable_at_bound", "asymptote_decrease", "asymptote_increase", "acti
           "per_signal_bounds", "per_variable_move", "per_signal_move", "float_signal", "arr1_signal", "vector_signal",
           "multi_signal", "response_without_signal", "start_on_bound", "infeasible_start", "converged_tolx", "maxit_reached",
           "newton_cap_message", "version_1987", "version_2007", "constraint_active_at_optimum", "bound_active_at_optimum",
-          "liveness_judged", "concat_network", "spy_installed", "work_counter_seen", "integer_typed_start"]
+          "liveness_judged", "concat_network", "spy_installed", "work_counter_seen", "integer_typed_start", "signals_share_initial_array"]
 FAULT_KINDS = []
 COMPONENTS = {"real": ["pymoto.minimize_mma", "pymoto.common.mma.MMA / mmasub / subsolv", "pymoto.Network / Module backpropagation",
                        "pymoto.utils._concatenate_to_array", "numpy.linalg.solve"],
@@ -219,7 +219,7 @@ def gen(rng, idx, tier):
         asydecr=float(rng.choice([0.7, 0.7, 0.5, 0.9])), albefa=float(rng.choice([0.1, 0.1, 0.05, 0.4])),
         epsimin=float(rng.choice([0.0, 0.0, 1e-7, 1e-9])),          # 0.0 = library default (1e-10)
         tolx=float(rng.choice([1e-4, 1e-4, 1e-6, 0.0])), maxit=maxit,
-        net=str(rng.choice(["direct", "direct", "concat"])), tier=tier, ops=[])
+        net=str(rng.choice(["direct", "direct", "concat"])), tier=tier, share=bool(rng.random() < 0.35), ops=[])
 
 
 def simplify(case):
@@ -453,9 +453,30 @@ def run(case):
     # ---- signals and network
     Signal = pym.Signal
     sig = []
+    # two equally sized vector signals may be initialised from the *same* array object (x0 = np.full(n, .5); Signal('a', x0);
+    # Signal('b', x0)): legal, and the designs must still be written back to the right signals
+    shared = {}
+    if case.get("share"):
+        vec = [i for i, s in enumerate(case["sigs"]) if s["kind"] == "vec"]
+        for a_ in vec:
+            for b_ in vec:
+                if a_ < b_ and sizes[a_] == sizes[b_] and b_ not in shared and a_ not in shared:
+                    la, ha = pb["lo"][cum[a_]:cum[a_ + 1]], pb["hi"][cum[a_]:cum[a_ + 1]]
+                    lb, hb = pb["lo"][cum[b_]:cum[b_ + 1]], pb["hi"][cum[b_]:cum[b_ + 1]]
+                    lo_, hi_ = np.maximum(la, lb), np.minimum(ha, hb)
+                    if np.all(lo_ <= hi_):
+                        v = np.clip(x0[cum[a_]:cum[a_ + 1]], lo_, hi_)
+                        x0[cum[a_]:cum[a_ + 1]] = v
+                        x0[cum[b_]:cum[b_ + 1]] = v
+                        shared[b_] = a_
     for i, (s, sz) in enumerate(zip(case["sigs"], sizes)):
         seg = x0[cum[i]:cum[i + 1]]
         as_int = case["x0"] == "int" and bool(np.all(x0 == np.round(x0)))
+        if i in shared and not as_int:
+            sig.append(Signal(f"x{i}", state=sig[shared[i]].state))      # the very same array object
+            probe("vector_signal")
+            probe("signals_share_initial_array")
+            continue
         if s["kind"] == "float":
             st = int(seg[0]) if as_int else float(seg[0])
             probe("float_signal")
